@@ -444,7 +444,7 @@ func (ego *list) Equals(another List) bool {
 }
 
 func (ego *list) Concat(another List) List {
-	other := another.getVal().(*list).val
+	other := another.base().val
 	val := make([]field, 0, len(ego.val)+len(other))
 	newList := &list{val: append(append(val, ego.val...), other...)}
 	newList.Init(newList)
